@@ -269,6 +269,30 @@ def class_code_objects(cls, filename_suffix):
     return out
 
 
+def module_code_objects(mod, filename_suffix):
+    """code objects of the functions and of the methods of the classes defined in a module"""
+    out = []
+    for _name, val in vars(mod).items():
+        fn = getattr(val, "__vf_original__", val)
+        if isinstance(fn, types.FunctionType) and fn.__code__.co_filename.endswith(filename_suffix):
+            out.extend(code_objects(fn))
+        elif isinstance(val, type) and getattr(val, "__module__", None) == mod.__name__:
+            out.extend(class_code_objects(val, filename_suffix))
+    return out
+
+
+def with_fault(injector, k, fn):
+    """run fn() with a failpoint armed at the k-th statement; returns True if the fault fired (and was swallowed)"""
+    injector.arm(k)
+    try:
+        fn()
+        return False
+    except InjectedFault:
+        return True
+    finally:
+        injector.disarm()
+
+
 class InjectedFault(BaseException):
     """Raised by the fault injector at a statement boundary of the monitored code (like an asynchronous
     KeyboardInterrupt / MemoryError arriving there)."""
